@@ -722,6 +722,11 @@ fn names_dict(args: &[String], signals: bool) -> String {
             info(o, &mut opts);
         }
     }
+    // `char::is_alphanumeric` (Rust std, not yash code) of the non-ASCII characters: the model's parameter
+    let non_ascii: BTreeSet<char> = args.iter().flat_map(|a| a.chars()).filter(|c| !c.is_ascii()).collect();
+    for c in non_ascii {
+        e.push(format!("a:{}:{}", enc_str(&c.to_string()), c.is_alphanumeric() as u8));
+    }
     let sufs = suffixes(args);
     for s in &sufs {
         match yash_env::option::parse_long(&yash_env::option::canonicalize(s)) {
@@ -981,6 +986,35 @@ fn separate_kill(args: &[String]) -> Vec<String> {
     out
 }
 
+/// `--NAME` / `++NAME` and the argument of a separate `-o` / `+o` written with their alphanumerics only, ASCII lower case
+fn plain_names(args: &[String]) -> Vec<String> {
+    let plain = |s: &str| -> String { s.chars().filter(|c| c.is_alphanumeric()).map(|c| c.to_ascii_lowercase()).collect() };
+    let mut out = vec![];
+    let mut i = 0;
+    while i < args.len() {
+        let a = &args[i];
+        if a == "--" || a == "-" {
+            break;
+        }
+        if (a.starts_with("--") && a.len() > 2) || a.starts_with("++") {
+            let p = plain(&a[2..]);
+            // an empty name would turn `--x` into the separator `--`
+            out.push(if p.is_empty() { a.clone() } else { format!("{}{}", &a[..2], p) });
+        } else if (a == "-o" || a == "+o") && i + 1 < args.len() {
+            out.push(a.clone());
+            i += 1;
+            out.push(plain(&args[i]));
+        } else if a.len() >= 2 && (a.starts_with('-') || a.starts_with('+')) && !a.contains('o') {
+            out.push(a.clone());
+        } else {
+            break;
+        }
+        i += 1;
+    }
+    out.extend_from_slice(&args[i.min(args.len())..]);
+    out
+}
+
 fn spelling_oracle(portable: bool, given: &str, separated: Option<String>) -> String {
     match separated {
         None => "-".into(),
@@ -1006,7 +1040,20 @@ fn run_t(w: &[&str]) -> (String, String) {
     let Some(args) = w[3..].iter().map(|a| dec_str(a)).collect::<Option<Vec<String>>>() else { return bad() };
     let obs = observe_set(portable, &args);
     let sep = separate_so(&args, true);
-    let oracle = spelling_oracle(portable, &obs, (sep != args).then(|| observe_set(portable, &sep)));
+    let mut oracle = spelling_oracle(portable, &obs, (sep != args).then(|| observe_set(portable, &sep)));
+    // option names: only alphanumerics matter and ASCII case is ignored, so writing a name without its other
+    // characters and in lower case must not change anything (`--ERR-EXITé` like `--errexité`)
+    if !oracle.starts_with("FAIL") && !portable {
+        let plain = plain_names(&args);
+        if plain != args {
+            let o2 = observe_set(portable, &plain);
+            if o2 != obs && !o2.starts_with("err:nonPortable") && !obs.starts_with("err:nonPortable") && !obs.contains("portable=1") {
+                oracle = format!("FAIL:name spelled plainly {plain:?} gives {o2}");
+            } else if oracle == "-" {
+                oracle = "ok".into();
+            }
+        }
+    }
     (obs, oracle)
 }
 
@@ -1090,18 +1137,22 @@ fn k_case(portable: bool, args: &[&str]) -> String {
     s
 }
 
-const T_TOKENS: [&str; 40] = [
+const T_TOKENS: [&str; 55] = [
     "-e", "-u", "-eu", "+e", "+eu", "-o", "+o", "errexit", "noglob", "-oerrexit", "-onoglob", "+oerrexit", "--errexit",
     "++errexit", "--noglob", "--err", "-ex", "-eo", "-euo", "--", "-", "X", "-Z", "-eZ", "-i", "-oi", "--interactive",
     "portable", "--portable", "-oportable", "--no", "--e", "-C", "nounset", "+C", "", "-e-", "++", "-oErr-Exit", "-n",
+    // names with non-ASCII alphanumerics (é ß fullwidth Ａ, Arabic-Indic digit ٣) and non-ASCII punctuation (– en dash, · middle dot)
+    "-oerrexité", "-oerr-exité", "--ERREXITé", "-oErr_Exité", "--x-é", "errexité", "err-exité", "--errexitß", "--Ａllexport",
+    "--err٣", "--err–exit", "++x·trace", "-oé", "--é-", "+oXTRACEé",
 ];
 const H_ARG0: [&str; 4] = ["yash", "-yash", "/bin/sh", "sh"];
-const H_TOKENS: [&str; 60] = [
+const H_TOKENS: [&str; 67] = [
     "-c", "-s", "-cs", "-i", "-e", "-ec", "+e", "-V", "-eV", "+V", "-o", "errexit", "-oerrexit", "--errexit", "++errexit",
     "--profile", "--profile=p", "--pro", "--rcfile=r", "--norcfile", "--noprofile", "--nopro", "--help", "--version",
     "--ver", "--help=x", "++help", "--", "-", "cmd", "script", "--portable", "-oportable", "-ce", "+c", "--no", "--n",
     "--posixlycorrect", "-l", "--login", "-Z", "--zz", "+s", "-eo", "--r", "", "-oErr-Exit", "err-exit", "--interactive", "--cmdline",
     // option-arguments that themselves contain `=` (several, leading, trailing), empty ones, abbreviated names
+    "--x-é", "--ERREXITé", "-oerr-exité", "err–exit", "--errexité", "++Xtraceß", "--Ａ",
     "--rcfile=a=b", "--profile==x", "--rc=x=", "--pro=a=b=c", "--rcfile=", "--rcfile", "a=b", "=", "--profile=a=b", "--errexit=x=y",
 ];
 const K_TOKENS: [&str; 38] = [
